@@ -275,12 +275,14 @@ func fieldsOfSize(total int) field.Fields {
 }
 
 // generator pools
-var tagPool = []string{"a=b", "", "x=y,z=1", "{a=b}", "name=app1,ip=\"1.2.3.4\"", "a=\xff"}
+var tagPool = []string{"a=b", "", "x=y,z=1", "{a=b}", "name=app1,ip=\"1.2.3.4\"", "a=\xff", "dir=C:\\logs\\", "{app=a,dir=C:\\logs\\}", "p=a\\,q=b"}
 var msgPool = []string{"", "hello", "\x00\xff", "line\n", strings.Repeat("m", 130), "é", "\xef\xbf\xbd", "{\"k\":\"v\"}"}
 var tsPool = []int64{0, -1, 1, 1 << 62, -1 << 63, 1<<63 - 1, 1568000000000000000}
 
 func fieldPool(rng *vh.Rng) string {
 	basic := []string{"a=b", "", "c=d,e=f", `k="x,y"`, "{z=1}", "oops", `q="unclosed`, " sp = v ", "a=", "=b", "kind=level", "kind=level,x=y", "level=x", "kind=other,level=x", "f=f",
+		// back-slashes OUTSIDE quotes (a Windows directory), as the last byte, before the closing brace, before a separator, alone
+		"dir=C:\\logs\\", "{dir=C:\\logs\\}", "a=b\\,c=d", "a\\=b", "\\", "a=\\", `k="x\`, `k="x\"`, "a=b\\\\", "kind=user", "dir=C:\\logs\\,kind=user",
 		strings.Repeat("k", 256) + "=v", "a=" + strings.Repeat("v", 255), "a=" + strings.Repeat("v", 256), "a=`raw`", `a="é\x41"`}
 	if rng.Chance(3, 4) {
 		return rng.PickS(basic)
@@ -408,6 +410,43 @@ func kvAnswer(text []byte) string {
 		return vh.Hx(text) + ":!"
 	}
 	return vh.Hx(text) + ":" + r.Val
+}
+
+// kvBuild is the real field.NewFieldsFromKVString under recover. C13 is about exactly this call not panicking on request text, so a
+// panic here is an observation (remembered in kvPanics and reported, with the text as a replayable robust/kv case, by
+// flushKvPanics) and never the end of the harness.
+var (
+	kvPanics   []string
+	kvPanicsMu sync.Mutex
+)
+
+func kvBuild(kv string) (f field.Fields, err error) {
+	if p := vh.Recover(func() { f, err = field.NewFieldsFromKVString(kv) }); p != "" {
+		kvPanicsMu.Lock()
+		kvPanics = append(kvPanics, kv)
+		kvPanicsMu.Unlock()
+		return "", fmt.Errorf("panic: %s", p)
+	}
+	return f, err
+}
+
+// flushKvPanics reports the (distinct, at most 8) texts on which an unguarded-looking harness call of NewFieldsFromKVString panicked
+func flushKvPanics(sec *vh.Section) {
+	kvPanicsMu.Lock()
+	ps := kvPanics
+	kvPanics = nil
+	kvPanicsMu.Unlock()
+	seen := map[string]bool{}
+	var cases []robustCase
+	for _, kv := range ps {
+		if !seen[kv] && len(cases) < 8 {
+			seen[kv] = true
+			cases = append(cases, robustCase{"kv", vh.HxS(kv)})
+		}
+	}
+	if len(cases) > 0 {
+		runRobust(sec, cases, false)
+	}
 }
 
 // expandsOnUnquote is the class predicate of F44 evaluated on the real splitting/unquoting: some item of a KV text
@@ -656,7 +695,7 @@ func sectionWire(rng *vh.Rng) {
 			encImpl, encCases = append(encImpl, vh.Hx(eb)), append(encCases, wireCase{"le", vh.Hx(eb), "encode"})
 		}
 		if i%3 == 2 {
-			f, _ := field.NewFieldsFromKVString(rng.PickS([]string{"", "a=b", "k=v,x=y"}))
+			f, _ := kvBuild(rng.PickS([]string{"", "a=b", "k=v,x=y"}))
 			msg := []byte(rng.PickS(msgPool))
 			if i%12 == 2 {
 				// sizes around the varint boundaries of the two length prefixes
@@ -687,6 +726,7 @@ func sectionWire(rng *vh.Rng) {
 		}
 	}
 	runWire(sec, cases, false)
+	flushKvPanics(sec)
 	// encoders
 	ea := batch(encLines)
 	for i := range ea {
